@@ -910,7 +910,12 @@ func (fr *frame) execRecv(st *state, v *ssa.UnOp) {
 	val := sc.declare("recv", srt)
 	fr.typeInv(st, val, srt, ct.Elem(), false)
 	if v.CommaOk {
-		fr.tuples[v] = []string{val, sc.declare("recvok", "Bool")}
+		ok := sc.declare("recvok", "Bool")
+		fr.tuples[v] = []string{val, ok}
+		// ghost: a receive that reports "closed and empty" has drained the channel (C19)
+		dk := "G|chan.drained|Bool"
+		ch := fr.val(v.X)
+		fc.hset(st, dk, app("store", fc.hget(st, dk), ch, or(app("select", fc.hget(st, dk), ch), not(ok))))
 	} else {
 		fr.regs[v] = val
 	}
